@@ -2,6 +2,7 @@ package world
 
 import (
 	"fmt"
+	"strings"
 
 	"verifsim/refmqtt"
 	"verifsim/refsn"
@@ -20,11 +21,20 @@ func oracleC11(v *View, vd *Verdict) {
 			qos     uint8
 			order   int
 			sentT   int64
+			newName bool // the topic has no id yet: REGISTER in one flush, the PUBLISH (after the REGACK) in the next
+			age     int  // flushes survived
 		}
 		var pending []bmsg     // published during the current sleep, not yet delivered
 		inFlush := false       // between the waking PINGREQ and its PINGRESP
 		flushSeen := map[string]int{}
 		var flushOrder []string
+		ctlSeen := map[string]int{} // control packets of the gateway's own exchanges (REGISTER, PUBREL) in this flush
+		type owedRel struct {
+			mid   uint16
+			sentT int64
+		}
+		var owedRels []owedRel // PUBRELs the broker sent while the client slept
+		pubrecT := map[uint16]int64{} // first PUBREC the gateway wrote to the broker, per id
 		afterWake := false // the wake-up PINGRESP has been sent; until the next PINGREQ/CONNECT/DISCONNECT nothing may be sent
 		norder := 0
 		died := false
@@ -58,8 +68,21 @@ func oracleC11(v *View, vd *Verdict) {
 			case EvB2G:
 				if e.MQ.Type == refmqtt.PUBLISH && (w.st == stAsleep || w.sleepReq) && !inFlush {
 					norder++
-					pending = append(pending, bmsg{string(e.MQ.Payload), e.MQ.QoS, norder, e.T})
+					pending = append(pending, bmsg{string(e.MQ.Payload), e.MQ.QoS, norder, e.T, strings.HasPrefix(e.MQ.Topic, "n/"), 0})
 					vd.Trigger = true
+				}
+				if e.MQ.Type == refmqtt.PUBREL && (w.st == stAsleep || w.sleepReq) && !inFlush {
+					// (a broker slower than the gateway's whole retry budget for the PUBREC has lost the exchange)
+					budget := v.R.Plan.Cfg.RetryDelayMs * nsMs
+					if t0, ok := pubrecT[e.MQ.ID]; ok && e.T-t0 < budget-(v.R.Plan.Cfg.MQ.MaxLatUs+1000)*1000-v.R.StalledNs {
+						owedRels = append(owedRels, owedRel{e.MQ.ID, e.T})
+					}
+				}
+			case EvG2B:
+				if e.MQ.Type == refmqtt.PUBREC {
+					if _, ok := pubrecT[e.MQ.ID]; !ok {
+						pubrecT[e.MQ.ID] = e.T
+					}
 				}
 			case EvG2C:
 				if e.SNErr != nil {
@@ -101,17 +124,44 @@ func oracleC11(v *View, vd *Verdict) {
 							vd.Add("C11", fmt.Sprintf("C11/delivered-more-than-once-in-one-flush/qos%d", p.QoS), "session %s cycle %d: %s delivered again in the same flush (dup=%v)", sv.Name, cycle, p.String(), p.Dup)
 						}
 					}
+					if p.Type == refsn.REGISTER || p.Type == refsn.PUBREL {
+						// every packet is delivered once: the retry timers of the gateway's own exchanges stand
+						// still while the client sleeps, so one flush never carries a packet and its retransmission
+						k := fmt.Sprintf("%s/%d", p.Name(), p.MsgID)
+						if ctlSeen[k]++; ctlSeen[k] == 2 {
+							vd.Add("C11", "C11/delivered-more-than-once-in-one-flush/"+p.Name(), "session %s cycle %d: %s delivered again in the same flush", sv.Name, cycle, p.String())
+						}
+					}
 					if p.Type == refsn.PINGRESP {
+						for _, r := range owedRels {
+							if ctlSeen[fmt.Sprintf("PUBREL/%d", r.mid)] == 0 {
+								vd.Add("C11", "C11/not-delivered-on-wake/PUBREL/"+cyc(cycle), "session %s cycle %d: the broker's PUBREL(%d) sent during the sleep was not delivered before PINGRESP", sv.Name, cycle, r.mid)
+							}
+						}
+						owedRels = nil
+						ctlSeen = map[string]int{}
 						// end of flush: everything published during the sleep must have appeared, first occurrences in broker order
 						pos := map[string]int{}
 						for i, k := range flushOrder {
 							pos[k] = i
 						}
 						last := -1
+						var carried []bmsg
 						for _, m := range pending {
 							i, ok := pos[m.payload]
+							if !ok && m.newName && m.age == 0 {
+								// this flush carried the REGISTER; the PUBLISH follows the client's REGACK
+								m.age++
+								carried = append(carried, m)
+								continue
+							}
 							if !ok {
 								vd.Add("C11", fmt.Sprintf("C11/not-delivered-on-wake/qos%d/%s", m.qos, cyc(cycle)), "session %s cycle %d: broker message %q published during the sleep was not delivered before PINGRESP", sv.Name, cycle, m.payload)
+								continue
+							}
+							if m.newName {
+								// (a message that waits for its topic's registration may be overtaken by
+								// messages on other topics, asleep or not: order is judged among the others)
 								continue
 							}
 							if i < last {
@@ -124,7 +174,7 @@ func oracleC11(v *View, vd *Verdict) {
 								vd.Add("C11", "C11/qos0-delivered-twice", "session %s cycle %d: QoS 0 message %q delivered %d times", sv.Name, cycle, m.payload, flushSeen[m.payload])
 							}
 						}
-						pending = nil
+						pending = carried
 						inFlush = false
 						afterWake = true
 						flushSeen = map[string]int{}
@@ -149,6 +199,13 @@ func oracleC11(v *View, vd *Verdict) {
 							}
 						}
 						pending = kept
+						keptR := owedRels[:0]
+						for _, r := range owedRels {
+							if r.sentT <= e.T-guard {
+								keptR = append(keptR, r)
+							}
+						}
+						owedRels = keptR
 						inFlush = true
 						afterWake = false
 						cycle++
@@ -158,6 +215,7 @@ func oracleC11(v *View, vd *Verdict) {
 					afterWake = false
 					if e.SN.Type == refsn.CONNECT {
 						pending = nil
+						owedRels = nil
 						connecting = w.st == stAsleep || w.st == stAwake
 					}
 				}
@@ -215,6 +273,23 @@ func genC11(g *Gen, idx int) *Plan {
 	p.Family = "C11-cycles-" + fam
 	ncyc := int(g.Range(1, 4))
 	n := 0
+	// names without a topic id: the gateway's REGISTER is buffered like everything else (and its
+	// retry timer stands still), the PUBLISH follows the client's REGACK
+	newNames := g.Bool(0.3)
+	nnew := 0
+	if newNames {
+		p.Family += "-newnames"
+		ncyc = int(g.Range(2, 4))
+	}
+	pick := func() string {
+		if newNames && g.Bool(0.5) {
+			if nnew == 0 || g.Bool(0.6) {
+				nnew++
+			}
+			return fmt.Sprintf("n/%d", g.Range(1, int64(nnew)))
+		}
+		return topics[g.Intn(len(topics))]
+	}
 	sg.active = true
 	for c := 0; c < ncyc; c++ {
 		d := uint16(g.Range(2, 30))
@@ -236,7 +311,7 @@ func genC11(g *Gen, idx int) *Plan {
 				at = wake + g.Range(-15, 15)
 			}
 			n++
-			p.Broker.Injects = append(p.Broker.Injects, BrokerInject{AtMs: at, Session: "p1", Force: true, Topic: topics[g.Intn(len(topics))],
+			p.Broker.Injects = append(p.Broker.Injects, BrokerInject{AtMs: at, Session: "p1", Force: true, Topic: pick(),
 				Payload: serialPayload("s", n, int(g.Range(0, 8))), QoS: uint8(g.Intn(qmax)), Retain: g.Bool(0.2)})
 		}
 		sg.add(refsn.Pkt{Type: refsn.PINGREQ, Data: []byte("c1")})
@@ -244,7 +319,7 @@ func genC11(g *Gen, idx int) *Plan {
 		if g.Bool(0.3) {
 			// publishes after the wake-up PINGRESP: the client is asleep again
 			n++
-			p.Broker.Injects = append(p.Broker.Injects, BrokerInject{AtMs: sg.t - g.Range(1, 200), Session: "p1", Force: true, Topic: topics[g.Intn(len(topics))],
+			p.Broker.Injects = append(p.Broker.Injects, BrokerInject{AtMs: sg.t - g.Range(1, 200), Session: "p1", Force: true, Topic: pick(),
 				Payload: serialPayload("s", n, 2), QoS: uint8(g.Intn(qmax))})
 		}
 		if g.Bool(0.3) {
@@ -439,7 +514,7 @@ func genC12(g *Gen, idx int) *Plan {
 
 func init() {
 	Register(&Check{ID: "C11", Level: "exploration",
-		Rule:   "raw peer runs 1-3 sleep/wake cycles (DISCONNECT(d), PINGREQ, optional CONNECT); broker publishes (QoS 0 only in two thirds of the runs, QoS 0-2 otherwise) on topics that need no registration, timed inside the sleep, within +-15 ms of the wake-up and after the wake-up PINGRESP; retry delays from a few ms (a retry timer comes round inside the wake-up procedure) to longer than the sleep; in 30 % of the runs a slow broker with the client's own PINGREQ still in flight when it falls asleep; one copy per flush, nothing after the PINGRESP, never again after the client acknowledged; yield focus on the PINGREQ/DISCONNECT arms and snSend; non-trivial = a broker PUBLISH while the reference state is asleep",
+		Rule:   "raw peer runs 1-3 sleep/wake cycles (DISCONNECT(d), PINGREQ, optional CONNECT); broker publishes (QoS 0 only in two thirds of the runs, QoS 0-2 otherwise) on topics that need no registration and, in 30 % of the runs, on names without a topic id (REGISTER in one flush, PUBLISH in the next), timed inside the sleep, within +-15 ms of the wake-up and after the wake-up PINGRESP; retry delays from a few ms (a retry timer comes round inside the wake-up procedure) to longer than the sleep; in 30 % of the runs a slow broker with the client's own PINGREQ still in flight when it falls asleep; one copy per flush (PUBLISH, REGISTER, PUBREL), the broker's PUBREL owed on wake like a PUBLISH, nothing after the PINGRESP, never again after the client acknowledged; yield focus on the PINGREQ/DISCONNECT arms and snSend; non-trivial = a broker PUBLISH while the reference state is asleep",
 		Gen:    genC11, Oracle: oracleC11, Quick: 600, Thorough: 40000})
 	Register(&Check{ID: "C12", Level: "exploration",
 		Rule:   "a compliant timed peer (keep-alive 5-40 s): sends PINGREQ / PUBLISH / REGISTER / a mix within every keep-alive while active, announces sleeps of 1 s..3xKA and wakes within them, in 40 % of the runs the broker publishes to it (QoS 0, sometimes 1) less than 0.4 KA before most of its signs of life, 4-25 steps (up to 200 in the thorough tier, i.e. up to ~2 h virtual); gaps between consecutive gateway->broker writes must stay <= 1.5 x KA; non-trivial = session with an MQTT CONNECT",
